@@ -550,6 +550,15 @@ pub fn c15_cases(quick: bool) -> Vec<SCase> {
             base.push(vec![G::Fresh(vec![2, 3], vec![leaf(&x, 1), G::Match(MatchKind::Match, T::list(vec![q(), r()]), vec![(vec![T::list(vec![x.clone(), y.clone()])], b.clone()), (vec![T::cons(y.clone(), T::W)], vec![G::Eq(y.clone(), T::I(3))])]), G::Eq(r(), x.clone())])]);
         }
     }
+    // a pattern arm that shadows (part of) its own scrutinee: the matched term is the OUTER
+    // variable, the names in the pattern are new ones
+    for kind in [MatchKind::Match, MatchKind::Matche, MatchKind::Matcha, MatchKind::Matchu] {
+        base.push(vec![G::Fresh(vec![2], vec![G::Eq(x.clone(), T::list(vec![T::I(1), T::I(2), T::I(3)])), G::Match(kind, x.clone(), vec![(vec![T::cons(T::W, x.clone())], vec![G::Eq(r(), x.clone())])]), G::Eq(q(), x.clone())])]);
+        base.push(vec![G::Fresh(vec![2, 3], vec![leaf(&x, 1), leaf(&y, 2), G::Match(kind, T::list(vec![x.clone(), y.clone()]), vec![(vec![T::list(vec![y.clone(), x.clone()])], vec![G::Eq(q(), T::list(vec![x.clone(), y.clone()]))])]), G::Eq(r(), T::list(vec![x.clone(), y.clone()]))])]);
+        base.push(vec![G::Fresh(vec![2], vec![G::Match(kind, x.clone(), vec![(vec![x.clone()], vec![G::Eq(q(), x.clone()), leaf(&x, 4)])]), G::Eq(r(), x.clone())])]);
+        base.push(vec![G::Match(kind, q(), vec![(vec![T::cons(T::W, q())], vec![G::Eq(r(), q())]), (vec![T::W], vec![G::Eq(r(), T::I(0))])]), G::Eq(q(), T::list(vec![T::I(1), T::I(2)]))]);
+        base.push(vec![G::Eq(q(), T::list(vec![T::I(1), T::list(vec![T::I(2)])])), G::Match(kind, q(), vec![(vec![T::list(vec![T::W, q()])], vec![G::Match(kind, q(), vec![(vec![T::list(vec![q()])], vec![G::Eq(r(), q())])])])])]);
+    }
     // recursion: every unfolding introduces variables with the same names
     for l in [T::list(vec![T::I(1), T::I(2), T::I(3)]), T::list(vec![T::I(1), q()]), T::list(vec![q(), T::I(2), q()])] {
         base.push(vec![G::Call("zipo".into(), vec![l.clone(), r()])]);
@@ -559,7 +568,7 @@ pub fn c15_cases(quick: bool) -> Vec<SCase> {
     }
     let mut out = vec![];
     for (i, b) in base.into_iter().enumerate() {
-        if quick && i % 2 == 1 && i > 20 {
+        if quick && i % 2 == 1 && i > 20 && i < 80 {
             continue;
         }
         let p = Program { nq: 2, body: b };
